@@ -16,9 +16,10 @@ HERE = os.path.dirname(os.path.dirname(os.path.abspath(__file__)))
 REPO_SRC = os.path.realpath(os.path.join(os.environ.get('VERIF_REPO', '/repo'), 'src'))
 
 KNOWN_FILE = os.path.join(HERE, 'known_findings.json')
-EVID_DIR   = os.path.join(HERE, 'evidence')
+EVID_DIR   = os.environ.get('VERIF_EVID_DIR') or os.path.join(HERE, 'evidence')
 REPLAY_DIR = os.path.join(HERE, 'replays')     # committed regression tier
-OUT_DIR    = os.path.join(HERE, 'out')         # run-time output (git-ignored)
+OUT_DIR    = (os.path.join(os.environ['VERIF_EVID_DIR'], 'out') if os.environ.get('VERIF_EVID_DIR')
+              else os.path.join(HERE, 'out'))   # run-time output (git-ignored)
 
 N_SHARDS = 16
 
